@@ -703,6 +703,9 @@ def sym_implies(a, b):
 def sym_ite(c, a, b):
     if isinstance(c, (bool,) + _NPBOOL):
         return a if c else b
+    if isinstance(a, SFP) or isinstance(b, SFP):
+        sort = (a if isinstance(a, SFP) else b).t.sort()
+        return SFP(z3.If(bool_term(c), fp_term(a, sort), fp_term(b, sort)))
     if _isreal(a) or _isreal(b):
         return wrap(z3.If(bool_term(c), real_term(a), real_term(b)))
     ta, tb = term_of(a), term_of(b)
